@@ -3,13 +3,13 @@ CONSTANTS
   Threshold = 1
   MaxRedirect = 65535
   MaxHeader = 255
-  Deviations = {}
+  Deviations = {"OffsetSaturates"}
   Bug = ""
   Mode = "lk"
   NC = 2
   MaxBody = 3
   MaxPrefix = 2
-  SkipBytes = {0, 128}
+  SkipBytes = {128}
   Variants = {0}
   DimVals = {0, 3}
   MaxW = 2
@@ -17,5 +17,5 @@ CONSTANTS
   DomT = 1
   PadK = 0
   Waive = {}
-INVARIANTS Idempotent SameFont SameChains Fits Closed MainLoopSame PlWellFormed
+INVARIANTS SameFont Idempotent
 CHECK_DEADLOCK FALSE
